@@ -1,4 +1,7 @@
 import AwProofs.Lemmas.QueryRun
+import AwProofs.Lemmas.Pipeline
+import AwProofs.Props.C09
+import AwProofs.Props.C16
 import AwModel.Query.RegistryGen
 /-!
 # C11 — a query means what its text says: literals, variables and calls compose
@@ -85,6 +88,135 @@ theorem args_in_order (apply : Apply) (ns : Ns) (e : Expr) (es : List Expr) (v :
     (h2 : denoteList Registry.registry apply ns es = .ok vs) :
     denoteList Registry.registry apply ns (e :: es) = .ok (v :: vs) := by
   rw [denoteList, h1]; simp only [exceptBind_ok, h2]; rfl
+
+
+/-! ## "applies the named built-in": the registered builtins ARE the transform models
+
+`call_denotes` reduces a call in a program to `callBuiltin apply e vs` for arbitrary bodies `apply`. With the
+bodies of `AwModel/Query/Pipeline.lean` (`pipeApply`: the `q2_*` wrappers of `aw_query/functions.py` over the
+transform models of C09/C10/C15/C16) and the entry the GENERATED registry holds under each name, the call
+protocol (`q2_function` dropping datastore and namespace, `q2_typecheck`, the arity test of `f(*args)`, the
+`except TypeError` of `QFunction.interpret`) lets the argument values through unchanged and the call is the
+transform model applied to them — for every event list, not for the sample of a test. (`other` = bodies the
+model does not have; irrelevant here.) The correspondence check runs whole queries on the real interpreter with
+the real bodies against `q pipe` (stream `pipeline`). -/
+section Pipeline
+open Aw Aw.Group Aw.Query.Pipeline AwProofs.Pipeline
+
+/-- list of strings as a query value -/
+def encStrs (l : List String) : Val := .list (l.map fun s => Val.str s.toList)
+
+theorem decJs_enc (l : List JVal) : decJs (.list (l.map encJ)) = some l := by
+  simp only [decJs, List.mapM_map]
+  exact mapM_comp_some decJ encJ decJ_encJ l
+
+local macro "call_simp" : tactic =>
+  `(tactic| simp [callBuiltin, callEntry, inject, typecheck, Entry.accepts, PKind.checked, pipeApply,
+      catchTypeError, n, encStrs, decJs_enc])
+
+theorem builtin_nop (other : Apply) :
+    ∃ e, lookupEntry Registry.registry (n "nop") = some e ∧
+      callBuiltin (pipeApply other) e [] = .ok (.int 1) := by
+  refine ⟨_, rfl, ?_⟩; call_simp
+
+theorem builtin_concat (other : Apply) (l₁ l₂ : List Event) :
+    ∃ e, lookupEntry Registry.registry (n "concat") = some e ∧
+      callBuiltin (pipeApply other) e [encEvs l₁, encEvs l₂] = .ok (encEvs (l₁ ++ l₂)) := by
+  refine ⟨_, rfl, ?_⟩; call_simp
+
+theorem builtin_sum_durations (other : Apply) (l : List Event) :
+    ∃ e, lookupEntry Registry.registry (n "sum_durations") = some e ∧
+      callBuiltin (pipeApply other) e [encEvs l] = .ok (encTd (sumDurations l)) := by
+  refine ⟨_, rfl, ?_⟩; call_simp
+
+theorem builtin_limit_events (other : Apply) (l : List Event) (c : Int) :
+    ∃ e, lookupEntry Registry.registry (n "limit_events") = some e ∧
+      callBuiltin (pipeApply other) e [encEvs l, .int c] = .ok (encEvs (limitEvents l c)) := by
+  refine ⟨_, rfl, ?_⟩; call_simp
+
+theorem builtin_sort_by_timestamp (other : Apply) (l : List Event) :
+    ∃ e, lookupEntry Registry.registry (n "sort_by_timestamp") = some e ∧
+      callBuiltin (pipeApply other) e [encEvs l] = .ok (encEvs (sortByTimestamp l)) := by
+  refine ⟨_, rfl, ?_⟩; call_simp
+
+theorem builtin_sort_by_duration (other : Apply) (l : List Event) :
+    ∃ e, lookupEntry Registry.registry (n "sort_by_duration") = some e ∧
+      callBuiltin (pipeApply other) e [encEvs l] = .ok (encEvs (sortByDuration l)) := by
+  refine ⟨_, rfl, ?_⟩; call_simp
+
+/-- `filter_keyvals` keeps, `exclude_keyvals` drops (the wrappers pass `False` / `True`) -/
+theorem builtin_filter_keyvals (other : Apply) (l : List Event) (k : String) (vals : List JVal) :
+    ∃ e, lookupEntry Registry.registry (n "filter_keyvals") = some e ∧
+      callBuiltin (pipeApply other) e [encEvs l, .str k.toList, .list (vals.map encJ)] =
+        .ok (encEvs (filterKeyvals l k vals false)) := by
+  refine ⟨_, rfl, ?_⟩; call_simp
+
+theorem builtin_exclude_keyvals (other : Apply) (l : List Event) (k : String) (vals : List JVal) :
+    ∃ e, lookupEntry Registry.registry (n "exclude_keyvals") = some e ∧
+      callBuiltin (pipeApply other) e [encEvs l, .str k.toList, .list (vals.map encJ)] =
+        .ok (encEvs (filterKeyvals l k vals true)) := by
+  refine ⟨_, rfl, ?_⟩; call_simp
+
+/-- an unhashable value under one of the keys (`TypeError` inside the body) reaches the user as the
+    interpreter's "invalid amount of arguments" error: that is what `QFunction.interpret` does with any
+    `TypeError` of the call -/
+theorem builtin_merge_events_by_keys (other : Apply) (l : List Event) (keys : List String) :
+    ∃ e, lookupEntry Registry.registry (n "merge_events_by_keys") = some e ∧
+      callBuiltin (pipeApply other) e [encEvs l, encStrs keys] =
+        match mergeEventsByKeys l keys with
+        | .ok o => .ok (encEvs o)
+        | .error .typeError => .error (.interp "Tried to call function with invalid amount of arguments") := by
+  refine ⟨_, rfl, ?_⟩
+  simp [callBuiltin, callEntry, inject, typecheck, Entry.accepts, PKind.checked, pipeApply, n, encStrs]
+  cases mergeEventsByKeys l keys with
+  | ok o => simp [catchTypeError]
+  | error e => cases e; simp [catchTypeError]
+
+theorem builtin_chunk_events_by_key (other : Apply) (l : List Event) (k : String) :
+    ∃ e, lookupEntry Registry.registry (n "chunk_events_by_key") = some e ∧
+      callBuiltin (pipeApply other) e [encEvs l, .str k.toList] =
+        .ok (.list ((chunkEventsByKey l k defaultPulse).map (encChunk k))) := by
+  refine ⟨_, rfl, ?_⟩; call_simp
+
+theorem builtin_filter_period_intersect (other : Apply) (l f : List Event) :
+    ∃ e, lookupEntry Registry.registry (n "filter_period_intersect") = some e ∧
+      callBuiltin (pipeApply other) e [encEvs l, encEvs f] = .ok (encEvs (Intersect.isect l f)) := by
+  refine ⟨_, rfl, ?_⟩; call_simp
+
+theorem builtin_period_union (other : Apply) (l₁ l₂ : List Event) :
+    ∃ e out, lookupEntry Registry.registry (n "period_union") = some e ∧
+      Intersect.periodUnion ([] : Data) l₁ l₂ = .ok out ∧
+      callBuiltin (pipeApply other) e [encEvs l₁, encEvs l₂] = .ok (encEvs out) := by
+  obtain ⟨out, ho⟩ := AwProofs.C09.union_never_raises ([] : Data) l₁ l₂
+  refine ⟨_, out, rfl, ho, ?_⟩
+  simp [callBuiltin, callEntry, inject, typecheck, Entry.accepts, PKind.checked, pipeApply, catchTypeError, n, ho]
+
+theorem builtin_flood (other : Apply) (l : List Event) :
+    ∃ e, lookupEntry Registry.registry (n "flood") = some e ∧
+      callBuiltin (pipeApply other) e [encEvs l] = .ok (encEvs (Flood.flood defaultPulse l)) := by
+  refine ⟨_, rfl, ?_⟩; call_simp
+
+theorem builtin_union_no_overlap (other : Apply) (l₁ l₂ : List Event) :
+    ∃ e, lookupEntry Registry.registry (n "union_no_overlap") = some e ∧
+      callBuiltin (pipeApply other) e [encEvs l₁, encEvs l₂] =
+        .ok (encEvs ((Unov.unov l₁ l₂).map (·.2))) := by
+  refine ⟨_, rfl, ?_⟩; call_simp
+
+/-- `q2_typecheck` in front of a modelled builtin: a first argument that is not a list (an integer, a string,
+    a dict, an event, a timedelta) is a query FUNCTION error and the body is never entered -/
+theorem builtin_rejects_non_list (other : Apply) (v : Val) (rest : List Val) (hv : typeOk .list v = false)
+    (nm : Str) (e : Entry) (hn : nm ∈ [n "concat", n "sum_durations", n "limit_events", n "sort_by_timestamp",
+      n "sort_by_duration", n "filter_keyvals", n "exclude_keyvals", n "merge_events_by_keys",
+      n "chunk_events_by_key", n "filter_period_intersect", n "period_union", n "flood", n "union_no_overlap"])
+    (he : lookupEntry Registry.registry nm = some e) :
+    callBuiltin (pipeApply other) e (v :: rest) =
+      .error (.func "Variable passed to function call is of invalid type") := by
+  simp only [List.mem_cons, List.not_mem_nil, or_false] at hn
+  rcases hn with rfl | rfl | rfl | rfl | rfl | rfl | rfl | rfl | rfl | rfl | rfl | rfl | rfl <;>
+  · cases he
+    simp [callBuiltin, callEntry, inject, typecheck, PKind.checked, hv, catchTypeError]
+
+end Pipeline
 
 /- Non-vacuity: the hypotheses are satisfiable on non-trivial inputs. The F10 witness program
    `RETURN = filter_keyvals(query_bucket("b"),"app",["a0"]);` is well-formed, and a layout that
